@@ -203,6 +203,10 @@ class Ent:
             return True
         if not (0 <= self.ttl < 2**32):
             return False
+        if self.now != 0 and self.created + 1000 * self.ttl - self.now >= 1000 * 2**32:
+            # the *remaining* TTL does not fit the 32-bit field: only when `now` lies before `created` (a record from the
+            # future); outside the quantifier (reading named in DESIGN / `WFRec`), byte-exact differential only (struct.error)
+            return False
         rd = self.rd
         k = self.kind
         if k == "a":
@@ -407,14 +411,21 @@ class Gen:
         self.malformed = malformed
         r = rng
         # a vocabulary of labels with shared suffixes, case variants, non-ASCII, boundary lengths
-        self.types = ["_http._tcp.local.", "_HTTP._tcp.local.", "_x._udp.local.", "_printer._sub._http._tcp.local.", "local."]
+        # "_http._tcp.\U0001F600.local." / "h.\U0001F600home.local.": 4-byte UTF-8 (astral) characters in a label that is *not* the
+        # first one, so that suffixes containing it are registered in the names table and pointed to
+        self.types = ["_http._tcp.local.", "_HTTP._tcp.local.", "_x._udp.local.", "_printer._sub._http._tcp.local.", "local.",
+                      "_http._tcp.\U0001F600.local."]
         # "\ufffd": text that contains U+FFFD (what 'replace' decoding leaves behind) is ordinary text for the encoder
         base = ["foo", "Foo", "FOO", "bar", "My Service", "é日本", "a", "x" * 62, "y" * 63, "é" * 31, "ü" * 31 + "z", "b-1", "7",
-                "\ufffd", "a\ufffdb", "\ufffd" * 21, "\U0001f600x"]
+                "\ufffd", "a\ufffdb", "\ufffd" * 21, "\U0001f600x",
+                "\U0001F600", "a\U0001F600b", "\U0001F600" * 15 + "abc", "\U00010000\U0010FFFF",
+                # label lengths between the short vocabulary and the 62/63 boundary, drawn per run
+                "k" * r.randint(11, 61), "K" * r.randint(11, 61), "é" * r.randint(6, 30) + "m", "\U0001F600" * r.randint(3, 15)]
         if malformed:
-            base += ["z" * 64, "w" * 65, "v" * 100, "u" * 300, "é" * 32, ""]
+            base += ["z" * 64, "w" * 65, "v" * 100, "u" * 300, "é" * 32, "", "\U0001F600" * 16]
         self.labels = base
-        self.hosts = ["host.local.", "Host.local.", "other-host.local.", "h" * 63 + ".local.", "日本.local."]
+        self.hosts = ["host.local.", "Host.local.", "other-host.local.", "h" * 63 + ".local.", "日本.local.", "h.\U0001F600home.local."]
+        self.d21 = False  # set per message: names of more than 255 wire octets (finding D21) only in a minority of messages
         # text-layer corner cases of write_name (outside the quantifier; byte-exact differential only): the empty string and
         # '.' (both the label list [''], written 00 00), empty labels in the middle / in front, two trailing dots (only one
         # is dropped), a name without trailing dot
@@ -453,30 +464,47 @@ class Gen:
             return "."
         return self.name()
 
-    def long_name(self):
-        """a name close to the 253-character limit"""
+    def long_name(self, d21=False):
+        """a name close to the 253-character / 255-octet limits, labels of every length 1..63.  With `d21` the non-ASCII
+        labels may push it beyond 255 wire octets (still <= 253 characters: inside the property's quantifier, finding D21)"""
         r = self.rng
         parts = []
-        total = len("local.")
+        chars = len("local.")
+        octets = 7  # 05 'local' 00
         while True:
-            l = r.choice(["a" * r.randint(1, 63), "é" * r.randint(1, 31), "q"])
-            if total + len(l) + 1 > 253:
+            k = r.random()
+            if k < 0.45:
+                l = "a" * r.randint(1, 63)
+            elif k < 0.75:
+                l = r.choice("éü") * r.randint(1, 31)
+            elif k < 0.85:
+                l = "\U0001F600" * r.randint(1, 15)
+            else:
+                l = "q"
+            if chars + len(l) + 1 > 253:
+                break
+            if not d21 and octets + len(l.encode("utf-8")) + 1 > 255:
                 break
             parts.append(l)
-            total += len(l) + 1
+            chars += len(l) + 1
+            octets += len(l.encode("utf-8")) + 1
         return ".".join(parts + ["local."])
+
+    def u16(self):
+        r = self.rng
+        return r.choice([0, 1, 255, 256, 257, 0x1234, 0xFF00, 65535, r.randint(0, 65535)])
 
     def ttl(self):
         return self.rng.choice([0, 1, 2, 120, 4500, 4500, 120, 2**32 - 1, self.rng.randint(0, 2**32 - 1), 1125])
 
     def cls(self):
         # 256 / 0x0101 / 0x7FFF: classes above 255, which a narrower class mask would lose
-        return self.rng.choice([1, 1, 1, 1, 255, 3, 256, 0x0101, 0x7FFF])
+        return self.rng.choice([1, 1, 1, 1, 255, 3, 256, 0x0101, 0x7FFF, 0, 0x7F00, self.rng.randint(0, 0x7FFF)])
 
     def record(self, kind=None, txt_len=None):
         r = self.rng
         kind = kind or r.choice("aaapppttsssshn")
-        name = self.name() if r.random() > 0.03 else self.long_name()
+        name = self.name() if r.random() > 0.03 else self.long_name()  # <= 255 wire octets; the D21 names are placed by message()
         unique = r.random() < 0.5
         ttl = self.ttl()
         created = r.choice([1000, 1_000_000, 123456])
@@ -488,30 +516,41 @@ class Gen:
             return Ent("p", name, r.choice([12, 12, 12, 5]), self.cls(), unique, ttl, created, 0, (self.rdname(),))
         if kind == "t":
             n = txt_len if txt_len is not None else r.choice([0, 1, 5, 20, 100, 255, 256, 600, r.randint(0, 1500)])
-            return Ent("t", name, 16, self.cls(), unique, ttl, created, 0, (bytes(r.randrange(256) for _ in range(n)),))
+            return Ent("t", name, 16, self.cls(), unique, ttl, created, 0, (r.randbytes(n),))
         if kind == "s":
-            port = r.choice([0, 80, 127, 128, 65535, r.randint(0, 65535)])
-            return Ent("s", name, 33, self.cls(), unique, ttl, created, 0, (r.choice([0, 1, 65535]), r.choice([0, 7]), port, r.choice(self.hosts + [name, self.rdname()])))
+            port = r.choice([0, 80, 127, 128, 65535, r.randint(0, 65535), self.u16()])
+            return Ent("s", name, 33, self.cls(), unique, ttl, created, 0, (self.u16(), self.u16(), port, r.choice(self.hosts + [name, self.rdname()])))
         if kind == "h":
             mx = 300 if self.malformed else 255
             cpu = r.choice(["", "cpu", "é" * 20, "c" * r.choice([254, 255, mx])])
             os_ = r.choice(["", "os", "ö" * 20, "日本語", "o" * r.choice([1, 255, mx])])
             return Ent("h", name, 13, self.cls(), unique, ttl, created, 0, (cpu, os_))
-        types = sorted(set(r.sample(range(1, 256), r.randint(1, 6)))) if r.random() < 0.7 else [1, 28]
+        k = r.random()
+        if k < 0.5:
+            types = sorted(set(r.sample(range(0, 256), r.randint(1, 6))))
+        elif k < 0.6:
+            types = sorted(set([0] + r.sample(range(0, 256), r.randint(0, 4))))  # rdtype 0: the first bit of the bitmap
+        elif k < 0.75:
+            types = sorted(set(r.sample(range(0, 256), r.randint(31, 40))))  # more types than a bitmap has octets
+        else:
+            types = [1, 28]
         if self.malformed and r.random() < 0.3:
             types = r.choice([[], [256], [1, 300]])
         return Ent("n", name, 47, self.cls(), unique, ttl, created, 0, (r.choice([name, self.name()]), types))
 
     def question(self):
         r = self.rng
-        return Ent("q", self.name(), r.choice([12, 1, 28, 33, 16, 255, 47]), self.cls(), r.random() < 0.4)
+        qt = r.choice([12, 1, 28, 33, 16, 255, 47, 12, 1, 256, 0x010C, 0xFF01, 65535, 0, r.randint(0, 65535)])
+        return Ent("q", self.name() if r.random() > 0.02 else self.long_name(), qt, self.cls(), r.random() < 0.4)
 
     def message(self, size_class=None):
         r = self.rng
         self.nodot = r.random() < (0.3 if self.malformed else 0.04)
         query = r.random() < 0.4
         # a TC bit given by the caller (0x0200) is transmitted as given
-        flags = r.choice([0, 0, 0x0400, 0x0200]) if query else r.choice([0x8400, 0x8400, 0x8000, 0x8600])
+        # any 16-bit flags word: RD / RA / opcode / rcode bits given by the caller are transmitted as given
+        flags = (r.choice([0, 0, 0x0400, 0x0200, 0x0100, 0x0110, 0x7DFF, r.randint(0, 0x7FFF)]) if query
+                 else r.choice([0x8400, 0x8400, 0x8000, 0x8600, 0x8100, 0x8580, 0xFDFF, 0x8000 | r.randint(0, 0x7FFF)]))
         multicast = r.random() < 0.7
         mid = r.choice([0, 1, 0xFFFF, r.randint(0, 0xFFFF)])
         sc = size_class or r.choice(["tiny", "small", "small", "medium", "large", "oversize-entry"])
@@ -534,8 +573,10 @@ class Gen:
         for a in an:
             if r.random() < 0.3:
                 # remaining-TTL path: now > 0, around the expiry instant
-                a.now = a.created + r.choice([0, 1, 999, 1000, 1001, 500 * a.ttl, 1000 * a.ttl - 1, 1000 * a.ttl, 1000 * a.ttl + 1, r.randint(0, 5_000_000)])
-                if a.now == 0:
+                a.now = a.created + r.choice([0, 1, 999, 1000, 1001, 500 * a.ttl, 1000 * a.ttl - 1, 1000 * a.ttl, 1000 * a.ttl + 1, r.randint(0, 5_000_000),
+                                              # `now` before `created`: the remaining TTL exceeds the TTL (and, for TTLs near 2^32, the field)
+                                              -1, -999, -1000, -1001, -r.randint(1, 900)])
+                if a.now <= 0:
                     a.now = 1
         au = [self.record(kind=r.choice("ppps") if r.random() < 0.5 else None) for _ in range(nau)]
         ad = [self.record() for _ in range(nad)]
@@ -546,4 +587,11 @@ class Gen:
             r.choice([an, ad])[:0] = [big] if r.random() < 0.5 else []
             if big not in an and big not in ad:
                 ad.append(big)
+        # names of more than 255 wire octets (finding D21): in a minority of the messages, rarer in the multi-datagram classes,
+        # so that most large messages are inside the theorems' quantifier (they are judged either way, datagram by datagram)
+        self.d21 = not self.malformed and r.random() < (0.02 if sc in ("medium", "large") else 0.07)
+        if self.d21:
+            pool = qs + an + au + ad
+            for e in (r.sample(pool, min(len(pool), r.choice([1, 1, 2]))) if pool else []):
+                e.name = self.long_name(d21=True)
         return GenMsg(flags, mid, multicast, qs, an, au, ad)
